@@ -639,18 +639,22 @@ class HashWalkEngine:
             apply_perturb(f, perturb)
             # model and parameters first and by the same route (a model
             # change resets the parameters, by design)
-            f.fit_properties["model_key"] = fp.get("model_key",
-                                                   FP_DEFAULT["model_key"])
-            if rng.random() < 0.6:
-                f.fit_properties["params_initial"] = rebuild_params(
-                    fp["params_initial"], rng)
-            else:
-                f.fit_properties["params_initial"] = copy.deepcopy(
+            kw = {}
+            pinit = rebuild_params(fp["params_initial"], rng) \
+                if rng.random() < 0.6 else copy.deepcopy(
                     fp["params_initial"])
+            mk = fp.get("model_key", FP_DEFAULT["model_key"])
+            if rng.random() < 0.25:
+                # both through the fitter's keyword arguments, parameters
+                # listed first (a mapping has no order that may matter)
+                kw["params_initial"] = pinit
+                kw["model_key"] = mk
+            else:
+                f.fit_properties["model_key"] = mk
+                f.fit_properties["params_initial"] = pinit
             keys = [k for k in SETTING_KEYS if k in fp
                     and k not in ("model_key", "params_initial")]
             rng.shuffle(keys)
-            kw = {}
             for k in keys:
                 v = with_repr(_plain(fp[k]), pick_repr(rng, k))
                 if rng.random() < 0.5:
